@@ -31,7 +31,7 @@ import (
 	"github.com/zeromicro/go-zero/rest/router"
 )
 
-var c09SrvMethods = []string{"GET", "POST", "PUT", "DELETE"}
+var c09SrvMethods = []string{"GET", "POST", "PUT", "DELETE", "HEAD", "PATCH", "OPTIONS"}
 
 type c09SrvGen struct {
 	r *verifh.Rng
@@ -39,7 +39,7 @@ type c09SrvGen struct {
 
 func (g *c09SrvGen) lit() string {
 	if g.r.Chance(1, 8) {
-		return g.r.PickS("A", "Ab", "user", "User", "a.b", "B")
+		return g.r.PickS("A", "Ab", "user", "User", "a.b", "B", "é")
 	}
 	return g.r.PickS("a", "b", "c")
 }
@@ -133,7 +133,7 @@ func (g *c09SrvGen) section() verifh.Section {
 		var rs []string
 		for j := 0; j < nr; j++ {
 			id++
-			m := c09SrvMethods[r.Intn(r.Pick(1, 2, 4))]
+			m := c09SrvMethods[r.Intn(r.Pick(1, 2, 2, 4, 7))]
 			var rt []string
 			switch x := r.Intn(100); {
 			case x < 18 && len(regs) > 0:
